@@ -332,6 +332,13 @@ func (g *mkGen) replacement() {
 	case 0:
 		name = "select"
 		cases := []string{"m", "f", "nb", "日", "x1"}
+		boolean := r.Chance(1, 6)
+		if boolean {
+			// a boolean written the way the dialogue displays it ({$flag} gives True / False): the case of
+			// the same spelling is chosen and % stands for that spelling
+			cases = []string{"True", "False"}
+			g.feat("replacement:select-on-boolean")
+		}
 		texts := map[string]string{}
 		var b strings.Builder
 		val := cases[r.Intn(len(cases))]
@@ -345,6 +352,9 @@ func (g *mkGen) replacement() {
 		}
 		head = "select value=" + val + b.String()
 		props["value"] = str(val)
+		if boolean {
+			props["value"] = ExpVal{Kind: "bool", B: val == "True"}
+		}
 		repl = strings.ReplaceAll(texts[val], "%", val)
 		g.feat("replacement:select")
 	case 1:
@@ -609,6 +619,76 @@ func HostileMarkupN(r *core.Rand, maxTokens, maxLen int) string {
 		s = s[:maxLen]
 	}
 	return s
+}
+
+// SplitBytesMarkup writes multi-byte characters piecewise through consecutive [nomarkup] sections (raw bytes
+// reach the text; a piece alone is invalid UTF-8, the pieces together are one character), with ordinary
+// markers opened, closed and self-closed between the pieces: the number of characters of the text built so
+// far goes DOWN when the last piece of a character arrives.
+func SplitBytesMarkup(r *core.Rand) string {
+	var b strings.Builder
+	open := []string{}
+	isOpen := func(n string) bool {
+		for _, o := range open {
+			if o == n {
+				return true
+			}
+		}
+		return false
+	}
+	between := func() {
+		switch r.Intn(8) {
+		case 0, 1:
+			n := r.Pick("x", "y", "z", "日")
+			if !isOpen(n) {
+				open = append(open, n)
+				b.WriteString("[" + n + "]")
+			}
+		case 2:
+			if len(open) > 0 {
+				k := r.Intn(len(open))
+				b.WriteString("[/" + open[k] + "]")
+				open = append(open[:k], open[k+1:]...)
+			}
+		case 3:
+			b.WriteString(r.Pick("[b/]", "[pause /]", "[b trimwhitespace=false/]"))
+		case 4:
+			b.WriteString(r.Pick("ab", "é", " ", "  ", "c d"))
+		case 5:
+			if len(open) > 0 {
+				b.WriteString("[/]")
+				open = open[:0]
+			}
+		}
+	}
+	if r.Chance(1, 4) {
+		b.WriteString(r.Pick(" ", "Mae: ", "ab", "\t"))
+	}
+	for k := r.Range(1, 4); k > 0; k-- {
+		ch := r.Pick("€", "é", "😀", "日", "ж", "𝔘", "\xff\xfe", "한")
+		bs := []byte(ch)
+		for len(bs) > 0 {
+			n := 1 + r.Intn(len(bs))
+			if len(bs) > 1 && r.Chance(2, 3) {
+				n = 1 + r.Intn(len(bs)-1) // a proper piece
+			}
+			between()
+			b.WriteString("[nomarkup]" + string(bs[:n]) + "[/nomarkup]")
+			bs = bs[n:]
+		}
+		between()
+	}
+	if r.Chance(1, 3) {
+		b.WriteString(r.Pick("abc", " ", " tail", "é"))
+	}
+	for len(open) > 0 {
+		b.WriteString("[/" + open[len(open)-1] + "]")
+		open = open[:len(open)-1]
+	}
+	if r.Chance(1, 4) {
+		b.WriteString(r.Pick(" ", "x", "  "))
+	}
+	return b.String()
 }
 
 // Truncation returns a prefix of a well-formed line cut at a PRNG byte offset.
